@@ -200,7 +200,7 @@ CHECKS["C17"] = dict(
           "estimates (e.g. the C01 identity) survives caught failures over a whole stream. Tied to pfi.py / incremental.py by enumerating "
           "every fault position (and random pairs) of small configurations on the real classes and comparing post-state, error and call "
           "log with the model; the identity is re-checked after resuming." + BRIDGE),
-    design_ref="DESIGN.md section 6, C17", note=TRUST_H + " BatchSage/IntervalSage keep their values in a local until the end (checked by reading; not modelled with faults).",
+    design_ref="DESIGN.md section 6, C17", note=TRUST_H + " BatchSage/IntervalSage are not modelled with faults in Lean; for them every callback position of short streams is enumerated on the real classes (importance values unchanged, the exception propagates, the stream resumes).",
     technique="Lean 4 theorems over state-keeping error monad + exhaustive fault enumeration on the real classes",
 )
 
